@@ -59,6 +59,10 @@ pub fn push_nonce_u32(value: u32) {
     NONCE_QUEUE.with(|q| q.borrow_mut().push_back(value));
 }
 
+pub fn clear_nonces() {
+    NONCE_QUEUE.with(|q| q.borrow_mut().clear());
+}
+
 /// Handshake nonces: taken from a queue filled by the harness, random when the queue is empty.
 pub fn nonce_u32(random: u32) -> u32 {
     NONCE_QUEUE.with(|q| q.borrow_mut().pop_front()).unwrap_or(random)
